@@ -1129,6 +1129,8 @@ func genSrvLimits(p *prng, thorough bool, w *bufio.Writer) {
 			g.done(sid, respGen{status: 200, body: "none"})
 		}
 	}
+	// the CONTINUATION frames above carry fields that end; these carry one that does not (F68)
+	genHeldFields(g, thorough, false)
 	g.line("srv %s end", g.id)
 }
 
